@@ -4,7 +4,10 @@ property it was written against (quick first, thorough if quick stays silent; pl
 undo the change, and write seeded/RESULTS.json + seeded/RESULTS.md.  Evidence of these runs goes to a scratch
 directory so that /verif/evidence keeps describing the unchanged tree.
 
-usage: tools/seeded.py [name ...]        (default: all)
+usage: tools/seeded.py [--wt <scratch worktree of /repo>] [name ...]        (default: all)
+
+With --wt the change is applied to that scratch worktree and the checks import WallGo from it (WALLGO_SRC), so /repo is
+not touched and a sweep can run next to other work; without it the change is applied to /repo itself and undone.
 """
 import json, os, subprocess, sys, tempfile, time, shutil
 
@@ -23,6 +26,8 @@ def clean():
 
 def run_check(pid, tier, evdir):
     env = dict(os.environ, VERIF_EVIDENCE_DIR=evdir, VERIF_NO_SELFTEST="1")
+    if REPO != "/repo":
+        env["WALLGO_SRC"] = REPO + "/src"
     t0 = time.time()
     p = subprocess.run([os.path.join(ROOT, "check"), pid, "--tier", tier], capture_output=True, text=True, env=env, cwd=ROOT)
     out = p.stdout + p.stderr
@@ -33,7 +38,11 @@ def run_check(pid, tier, evdir):
 
 
 def main():
-    names = sys.argv[1:] or sorted(d for d in os.listdir(SEED) if os.path.isfile(os.path.join(SEED, d, "patch.diff")))
+    global REPO
+    args = sys.argv[1:]
+    if args[:1] == ["--wt"]:
+        REPO = os.path.abspath(args[1]); args = args[2:]
+    names = args or sorted(d for d in os.listdir(SEED) if os.path.isfile(os.path.join(SEED, d, "patch.diff")))
     if not clean():
         print("refusing: /repo working tree is not clean"); return 2
     resf = os.path.join(SEED, "RESULTS.json")
@@ -61,10 +70,13 @@ def main():
             results[name] = dict(property=pid, what=meta.get("what"), breaks=meta.get("breaks"), caught_by=caught, machinery_failure=broken, runs=runs,
                                  out_of_domain=meta.get("out_of_domain"))
             print(name, "caught by", caught or "NOTHING", ("machinery failure in " + str(broken)) if broken else "")
-            json.dump(results, open(resf, "w"), indent=1)
+            merged = json.load(open(resf)) if os.path.exists(resf) else {}      # another sweep may be writing too
+            merged[name] = results[name]
+            json.dump(merged, open(resf, "w"), indent=1)
     finally:
         shutil.rmtree(evdir, ignore_errors=True)
-        assert clean(), "/repo left dirty"
+        assert clean(), REPO + " left dirty"
+    results = json.load(open(resf)) if os.path.exists(resf) else results
     with open(os.path.join(SEED, "RESULTS.md"), "w") as f:
         f.write("| seeded change | property | what was changed | caught by | first rejected observation |\n|---|---|---|---|---|\n")
         for name in sorted(results):
